@@ -575,7 +575,8 @@ def rule_gate(ctx):
     devfns = [fi for fi in p.functions if fi.module.name.startswith("indi.device")]
 
     def callers_of(name):
-        return [g for g in devfns if any(isinstance(n_, ast.Call) and isinstance(n_.func, ast.Attribute) and n_.func.attr == name for n_ in ast.walk(g.node))]
+        # calls and references to the bound method (a strategy method picked first and called through a variable)
+        return [g for g in devfns if g.name != name and any(isinstance(n_, ast.Attribute) and n_.attr == name and isinstance(n_.ctx, ast.Load) for n_ in ast.walk(g.node))]
 
     def inside(fi, depth=0):
         key = (fi.cls.name if fi.cls else None, fi.name)
@@ -583,7 +584,8 @@ def rule_gate(ctx):
             return fi.kind == "setter"
         if key in allowed:
             return True
-        if depth < 4 and fi.name.startswith("_") and not fi.name.startswith("__"):
+        private_cls = fi.cls is not None and fi.cls.name.startswith("_") and not fi.cls.name.startswith("__")
+        if depth < 4 and ((fi.name.startswith("_") and not fi.name.startswith("__")) or private_cls):
             cs = callers_of(fi.name)
             return bool(cs) and all(inside(g, depth + 1) for g in cs)
         return False
